@@ -648,10 +648,10 @@ Lemma delegate_inv s o u v amt dn s' : delegate denoms true s o u v amt dn = Ok 
                  (add_leak denoms s o) (queue s) (next_id s).
 Proof.
   unfold delegate, do_claim.
+  destruct (Z.ltb_spec amt 0); [discriminate|].
   destruct (Z.eqb_spec dn FEE) as [Hd|Hd]; cbn; [|discriminate].
   destruct (claim_cell denoms (cells s v) u) as [c1| |] eqn:Hcl; cbn; try discriminate.
   destruct (k_calc_share c1 amt) as [share| |] eqn:Hks; cbn; try discriminate.
-  destruct (Z.ltb_spec amt 0); try discriminate.
   destruct (Z.ltb_spec (credit denoms s (cells s v) u u FEE) amt); try discriminate.
   destruct (Z.ltb_spec v 0); cbn; try discriminate.
   destruct (Z.leb_spec amt 0); cbn; try discriminate.
